@@ -2,7 +2,7 @@
 """C06  Tolerant mode: total, equals strict on valid input, keeps pre-error content."""
 import ast
 from .. import symex
-from ..core import (AnalysisError, short, unparse, iter_own, call_name, call_recv, kwarg,
+from ..core import (AnalysisError, set_parents, short, unparse, iter_own, call_name, call_recv, kwarg,
                     is_self_attr, atomic_facts, parents, enclosing_stmt, enclosing_func)
 from .. import affine
 from . import totality
@@ -147,7 +147,7 @@ def _block_of(st):
     return [st]
 
 
-def _retry_progress(ctx, repo):
+def _retry_progress(ctx, repo, recursion_reported=False):
     """typestate over the reader position along each structural path that ends in a retry request"""
     pass
     em = repo.mod(EXPR)
@@ -225,8 +225,73 @@ def _retry_progress(ctx, repo):
             else:
                 ctx.holds('R06f', em, lst[0].node, 'reader strictly advanced on %d path(s)' % len(lst),
                           construct=cons)
-    if n < 4:
+    if n < 4 and not recursion_reported:
         raise AnalysisError('retry progress: only %d retry sites found' % n)
+
+
+PARSER_LAYER = ('pylatexenc.latexnodes.parsers', 'pylatexenc.latexnodes._tokenreader', 'pylatexenc.latexnodes._nodescollector',
+                'pylatexenc.latexnodes._parsingstate', 'pylatexenc.latexnodes._walkerbase', 'pylatexenc.latexwalker._walker',
+                'pylatexenc.macrospec')
+
+
+def class_call_cycles(functions_by_mod):
+    """cycles of `self.m()` / `cls.m()` calls between methods of one class, over {modname: {qualname: fn}}.
+    Returns a list of cycles, each a list of (modname, qualname, call node)"""
+    edges = {}
+    for mname, fns in functions_by_mod.items():
+        for q, f in fns.items():
+            if '.' not in q:
+                for c in iter_own(f):
+                    if isinstance(c, ast.Call) and isinstance(c.func, ast.Name) and c.func.id == q:
+                        edges.setdefault((mname, q), []).append(((mname, q), c))
+                continue
+            cls = q.rsplit('.', 1)[0]
+            for c in iter_own(f):
+                if isinstance(c, ast.Call) and isinstance(c.func, ast.Attribute) and isinstance(c.func.value, ast.Name) \
+                        and c.func.value.id in ('self', 'cls') and cls + '.' + c.func.attr in fns:
+                    edges.setdefault((mname, q), []).append(((mname, cls + '.' + c.func.attr), c))
+    out, done = [], set()
+
+    def dfs(n, path, calls):
+        for m, c in edges.get(n, ()):
+            if m in path:
+                i = path.index(m)
+                cyc = tuple(sorted(path[i:]))
+                if cyc not in done:
+                    done.add(cyc)
+                    out.append([(p_[0], p_[1], c_) for p_, c_ in zip(path[i:], calls[i:] + [c])])
+            elif len(path) < 12:
+                dfs(m, path + [m], calls + [c])
+    for n in sorted(edges):
+        dfs(n, [n], [])
+    return out
+
+
+def _flat_recursion(ctx, repo):
+    ctx.rule('R06p', 'the parser layer does not recurse per token: no method of the token reader, the parsers, the nodes '
+                     'collector or the argument parsers calls itself, directly or through other methods of its class -- nesting '
+                     'is only entered through LatexWalker.parse_content(), so a flat input of any length needs a constant '
+                     'number of stack frames (RecursionError is not a parse error and escapes the tolerant parse); the cycle '
+                     'search is exercised on a built-in example on every run', 1)
+    ex = ast.parse('class P:\n def a(self, r):\n  t = r.next_token()\n  return self.b(r)\n def b(self, r):\n  return [1] + self.a(r)\n')
+    set_parents(ex)
+    exf = {'P.' + f.name: f for f in ex.body[0].body}
+    if len(class_call_cycles({'ex': exf})) != 1:
+        raise AnalysisError('R06p: the cycle search no longer finds the cycle of its built-in example')
+    fbm = {m.name: m.functions for m in repo.modules.values() if m.name.startswith(PARSER_LAYER)}
+    if len(fbm) < 15:
+        raise AnalysisError('R06p: only %d parser-layer modules found' % len(fbm))
+    cycles = class_call_cycles(fbm)
+    for cyc in cycles:
+        mod_ = repo.mod(cyc[0][0])
+        ctx.refuted('R06p', mod_, cyc[-1][2], 'call cycle inside the parser layer: %s -> %s: every token / comment / space '
+                    'skipped this way costs a stack frame, so a long flat input (a block of a thousand comment lines in '
+                    'front of an argument) ends in RecursionError, which is not a parse error and escapes the tolerant parse'
+                    % (' -> '.join(c_[1] for c_ in cyc), cyc[0][1]),
+                    construct='recursion: ' + ' -> '.join(c_[1] for c_ in cyc))
+    ctx.holds('R06p', repo.mod(EXPR), None, 'no call cycle among the methods of a class in %d parser-layer modules (%d functions)'
+              % (len(fbm), sum(len(v) for v in fbm.values())), construct='parser-layer recursion scan', trivial=True)
+    return bool(cycles)
 
 
 def run(ctx):
@@ -493,7 +558,7 @@ def run(ctx):
                            trivial=True)
     ctx.analysed['tolerant_parsing_reads'] = len(reads)
     ctx.analysed['tolerance_check_calls'] = n_calls
-    _retry_progress(ctx, repo)
+    _retry_progress(ctx, repo, _flat_recursion(ctx, repo))
     _nodelist_position_fallback(ctx, repo)
     _optional_recovery_attributes(ctx, repo)
     # a closing token that reaches the dispatcher is rejected there (with recovery past it): otherwise
@@ -596,6 +661,13 @@ def run(ctx):
                        'of the error being recovered' % (q_, short(x_, 50), bt_), construct='%s: %s' % (q_, short(x_, 40)))
     ctx.holds('R06m', exm, None, '%d dereference(s) of nullable error-only fields %s examined' % (n_nf, sorted(nullable)),
               construct='nullable error field scan', trivial=True)
+
+    # ---- R06o (C17 P2/P4): a derived parsing state never carries stale lookup tables
+    ctx.rule('R06o', 'the lookup tables cached on a parsing state are reused from the parent only when no field they depend '
+                     'on changes: with a stale table the math parser looks up the closing delimiter in None / the wrong table '
+                     'and TypeError or KeyError -- not a parse error -- escapes the tolerant parse (C17 P2, P4)', 4)
+    from . import c17 as _c17
+    _c17.run(_c05._filtered(_c05._Sub(ctx, 'R06o'), ('P2', 'P4')))
 
     # ---- R06n: parsers are run through parse_content()
     ctx.rule('R06n', 'a parser object\'s parse() is called by LatexWalker.parse_content() only: that is where a parse error '
